@@ -41,6 +41,12 @@ def run(tier, seed):
         records += [p for p in r3.printed if isinstance(p, dict) and "hist" in p and wellformed(p)]
     jobs, results = S.replay_all(records)
     run.traces += consume(run, "C13", jobs, results)
+    rb = S.run_spec(2, dicts=S.DICTS_B, itsels=S.ITSELS_B, varsels=S.VARSELS_B, queries=S.QUERIES_B)
+    if rb.violated:
+        raise RuntimeError("AurelStore (family B) violates its own property " + rb.violated)
+    run.add_tlc(rb, "AurelStore, second family (numpy columns and 'it', scalar-valued variable), <= 2 saves exhaustive")
+    jobs_b, results_b = S.replay_all(list(rb.printed), dicts=S.DICTS_B)
+    run.traces += consume(run, "C13", jobs_b, results_b)
     for (hist, allowed, _) in jobs[:: max(1, len(jobs) // 5)][:5]:
         run.sample({"behaviour": S.fmt_hist(hist), "allowed_disk_states": len(allowed),
                     "expected_disk": allowed[0]["disk"][:6], "reads_checked": len(allowed[0]["reads"])})
